@@ -196,7 +196,8 @@ CLASSES = {
               "[{i}u16, 7, 9]", "m[0] = 777;", "[777u16, 7, 9]"),
     "str": ("str", [("&'static str", 1, False), ("&'a &'static str", 2, False)],
             "[\"p\", \"q\", \"r\", \"s\", \"t\", \"u\", \"v\", \"w\", \"x\", \"y\"][{i}]", None, None),
-    "dyn": ("dyn ::core::fmt::Debug", [("&'static dyn ::core::fmt::Debug", 1, False)], "{i}u64 + 500", None, None),
+    "dyn": ("dyn ::core::fmt::Debug", [("&'static dyn ::core::fmt::Debug", 1, False), ("&'a &'static dyn ::core::fmt::Debug", 2, False),
+                                       ("&'a &'a &'static dyn ::core::fmt::Debug", 3, False)], "{i}u64 + 500", None, None),
     "box": ("::std::boxed::Box<u32>", [("::std::boxed::Box<u32>", 0, True), ("&'a ::std::boxed::Box<u32>", 1, False),
                                       ("&'a mut ::std::boxed::Box<u32>", 1, True)],
             "::std::boxed::Box::new({i}u32 + 200)", "**m = 777;", "::std::boxed::Box::new(777u32)"),
@@ -216,7 +217,10 @@ def rich_field_expr(ft, depth, mutable, val):
         return val
     inner = val
     if "dyn" in ft:
-        return "%s(%s)" % (LEAK, val)
+        e = "(%s(%s) as &'static dyn ::core::fmt::Debug)" % (LEAK, val)
+        for _ in range(depth - 1):
+            e = "%s(%s)" % (LEAK, e)
+        return e
     e = "%s(%s)" % (LEAKM if (mutable and depth == 1) else LEAK, inner)
     for _ in range(depth - 1):
         e = "%s(%s)" % (LEAK, e)
@@ -380,6 +384,41 @@ def rich_case(seed, k):
     return c
 
 
+def big_tuple_case(seed):
+    """a tuple struct with 300 fields: positions beyond 255 (and beyond 9 / 99) must still be the positions that were marked"""
+    rng = rng_for(seed, PROP, "big")
+    n = 300
+    d, dm = rng.randrange(256, n), rng.randrange(256, n)
+    fields = []
+    for i in range(n):
+        marks = (["Deref"] if i == d else []) + (["DerefMut"] if i == dm else [])
+        fields.append(("#[educe(%s)] " % ", ".join(marks) if marks else "") + "pub u8")
+    text = "#[derive(::educe::Educe, Debug)]\n#[educe(Deref, DerefMut)]\npub struct Ty(\n%s);\n" % "".join("    %s,\n" % f for f in fields)
+    vals = ", ".join(str(i % 251) for i in range(n))
+    after = ", ".join("200" if i == dm else str(i % 251) for i in range(n))
+    glue = "pub fn mk0() -> Ty { Ty(%s) }\npub fn mk_after0() -> Ty { Ty(%s) }\n" % (vals, after)
+    drive = ("""        {
+            let x = mk0();
+            %sbegin();
+            let got = %saddr_size(::core::ops::Deref::deref(&x));
+            let want = %saddr_size(&x.%d);
+            %sobs("hbig", "rderef", 0, -1, &format!("{}\\t{:?}\\t{:?}\\t{:?}", (got == want) as u8, got, want, *x));
+        }
+        {
+            let mut x = mk0();
+            %sbegin();
+            let got = { let m = ::core::ops::DerefMut::deref_mut(&mut x); %saddr_size(&*m) };
+            let same = got == %saddr_size(&x.%d);
+            { let m: &mut u8 = &mut *x; *m = 200; }
+            %sobs("hbig", "rderefmut", 0, -1, &format!("{}\\t{:?}\\t{:?}", same as u8, x, mk_after0()));
+        }""" % (RT, RT, RT, d, RT, RT, RT, RT, dm, RT))
+    c = BH.Case("hbig", None, text, [], glue=glue, drive=drive,
+                info={"rich": True, "mut": True, "cls": "u8x300", "kind": "struct", "n": 2, "multi": True})
+    c.module = lambda c=c: H.module(c.cid, c.text + c.glue + "pub fn run() {\n    %sguarded(\"%s\", || {\n%s\n    });\n}\n"
+                                    % (RT, c.cid, c.drive))
+    return c
+
+
 def judge_rich(chk, c, obs, dropped, miri_obs=None):
     if c.cid in dropped:
         d = dropped[c.cid][0]
@@ -433,7 +472,7 @@ def main(tier, seed, scale=1.0):
                 "non-trivial = some variant has >= 2 fields; distinct by source text")
     chk.assumptions = ["field addresses come from a generator-written match accessor"]
     cases = [gen_case(seed, k) for k in range(n)]
-    cases = [x for pair in zip(cases, [rich_case(seed, k) for k in range(n)]) for x in pair]
+    cases = [x for pair in zip(cases, [rich_case(seed, k) for k in range(n)]) for x in pair] + [big_tuple_case(seed)]
     obs, dropped, crashed, _, _ = BH.execute("c09", cases)
     for b, (rc, err) in crashed.items():
         log("C09: binary %s exited with %s: %s" % (b, rc, err[-500:]))
